@@ -38,6 +38,7 @@ func (c11) Plan(tier string) []core.Segment {
 		{Gen: "small", Profile: a, Count: gen.Size("small", a), Exhaustive: true, Desc: "all strings up to the bound over {*,_,a,SP,.}", Batch: 100000},
 		{Gen: "small", Profile: b, Count: gen.Size("small", b), Exhaustive: true, Desc: "all strings up to the bound over {*,_,a,SP,.,left double quote,NBSP,e-acute}", Batch: 100000},
 		{Gen: "c11long", Count: scale(tier, 3_000_000, 50_000_000), Desc: "random strings of 11-60 symbols biased to long same-character runs and run lengths summing to multiples of 3"},
+		{Gen: "c11huge", Count: scale(tier, 60_000, 1_500_000), Desc: "two to four runs with lengths around 128, 256 and 512 (and short ones) between letters, punctuation and spaces", Batch: 2000},
 		{Gen: "c11runes", Profile: runesProfile(tier), Count: c11RuneCount(runesProfile(tier)), Exhaustive: true, Desc: "every code point (quick: Basic Multilingual Plane; thorough: all planes) as the neighbour of a delimiter run: r*a*, *a*r, *r*, a*r*a with * and _", Batch: 100000},
 	}
 }
@@ -89,6 +90,19 @@ func init() {
 }
 
 func init() {
+	// runs whose lengths sit on the powers of two a narrowed counter would wrap at (seeded
+	// change C11-k: the run length of the rule of 3 kept in eight bits)
+	lens := []int{1, 2, 3, 4, 126, 127, 128, 129, 130, 254, 255, 256, 257, 258, 300, 511, 512, 513}
+	gen.Register("c11huge", func(r *core.Rand, index uint64, profile string) ([]byte, string) {
+		d := []string{"*", "_"}[r.Intn(2)]
+		var sb strings.Builder
+		sb.WriteString([]string{"a", ".", "", "a "}[r.Intn(4)])
+		for i, n := 0, r.Range(2, 4); i < n; i++ {
+			sb.WriteString(strings.Repeat(d, lens[r.Intn(len(lens))]))
+			sb.WriteString([]string{"b", "b", ".", " b", "b ", ""}[r.Intn(6)])
+		}
+		return []byte(sb.String()), "c11huge"
+	})
 	gen.Register("c11runes", func(r *core.Rand, index uint64, profile string) ([]byte, string) {
 		c := rune(index / 8)
 		if c == 0 || c >= 0xD800 && c <= 0xDFFF || c > 0x10FFFF || c == '\n' || c == '\r' || c == '\t' || c == '\\' {
